@@ -83,6 +83,47 @@ func checkC10(c *Ctx) (string, []string) {
 		}
 		c.Check(hasX && len(shapes) == 2, "C10.disjoint-contexts", "PVM.Psi_A · X", f.Pos(), "X is initialised from DeepCopy() of both the partial state and the key-val pool", "X is not built from deep copies: "+strings.Join(shapes, " ;; "))
 		c.Check(hasY && len(shapes) == 2, "C10.disjoint-contexts", "PVM.Psi_A · Y", f.Pos(), "Y keeps the originals (never written)", "Y is not built from the original state: "+strings.Join(shapes, " ;; "))
+		// everything else the invocation can write through — the general arguments (working account, account table,
+		// key-val pool) and X — must come from the deep copies: a reference into the original partial state or
+		// key-val pool that reaches them lets a host call write into what Y (the rollback target) holds
+		var origs []ssa.Value
+		for _, p := range f.Params {
+			if ts := types.TypeString(p.Type(), nil); strings.HasSuffix(ts, "types.PartialStateSet") || strings.HasSuffix(ts, "types.StateKeyVals") {
+				origs = append(origs, p)
+			}
+		}
+		nargs := 0
+		allInstrs(f, func(in ssa.Instruction) {
+			st, ok := in.(*ssa.Store)
+			if !ok {
+				return
+			}
+			// field chain rooted at the HostCallArgs literal
+			var chain []string
+			v := st.Addr
+			for {
+				fa, isFA := v.(*ssa.FieldAddr)
+				if !isFA {
+					break
+				}
+				chain = append([]string{fieldName(fa.X.Type(), fa.Field)}, chain...)
+				v = fa.X
+			}
+			a, isA := v.(*ssa.Alloc)
+			if !isA || len(chain) == 0 || !hasSuffixType(derefType(a.Type()), "PVM.HostCallArgs") {
+				return
+			}
+			path := strings.Join(chain, ".")
+			if strings.Contains(path, "ResultContextY") || !hasRef(st.Val.Type()) {
+				return
+			}
+			nargs++
+			src := c10OriginalSource(st.Val, origs, map[ssa.Value]bool{}, 0)
+			c.Check(src == "", "C10.disjoint-contexts", "PVM.Psi_A · "+path, st.Pos(), "built from the deep copies (or from inputs other than the state): no reference into the original partial state or key-val pool", path+" carries a reference into the original state ("+src+"): a host call writing through it changes what the checkpoint context Y holds, so a panic or out-of-gas no longer rolls back")
+		})
+		if nargs == 0 {
+			c.Bad("C10.disjoint-contexts", "PVM.Psi_A · host-call arguments", f.Pos(), "the HostCallArgs literal of the invocation was not found")
+		}
 	}
 
 	c.Rule("C10.collapse", "C takes all six results from one context: Y for a system error, OUT_OF_GAS or PANIC, X otherwise; a 32-byte return value replaces X's yielded hash", 6)
@@ -420,4 +461,91 @@ func onlyInPhi(v ssa.Value) bool {
 		}
 	}
 	return true
+}
+
+// c10OriginalSource: does v carry a reference that comes from one of the original (non-copied) state values?
+// Returns a description of the source, or "". DeepCopy results are clean; values without references cannot alias.
+func c10OriginalSource(v ssa.Value, origs []ssa.Value, seen map[ssa.Value]bool, d int) string {
+	if v == nil || seen[v] || d > 14 {
+		return ""
+	}
+	seen[v] = true
+	for _, o := range origs {
+		if v == o {
+			return "parameter " + o.Name()
+		}
+	}
+	if _, isTuple := v.Type().(*types.Tuple); !isTuple && !hasRef(v.Type()) {
+		return ""
+	}
+	rec := func(x ssa.Value) string { return c10OriginalSource(x, origs, seen, d+1) }
+	switch x := v.(type) {
+	case *ssa.Call:
+		if sc := x.Call.StaticCallee(); sc != nil && sc.Name() == "DeepCopy" {
+			return ""
+		}
+		for _, a := range x.Call.Args {
+			if s := rec(a); s != "" {
+				return s
+			}
+		}
+	case *ssa.Alloc:
+		// whatever is stored into the cell or into parts of it
+		var walk func(addr ssa.Value) string
+		walk = func(addr ssa.Value) string {
+			for _, r := range *addr.Referrers() {
+				switch y := r.(type) {
+				case *ssa.Store:
+					if y.Addr == addr {
+						if s := rec(y.Val); s != "" {
+							return s
+						}
+					}
+				case *ssa.FieldAddr:
+					if y.X == addr {
+						if s := walk(y); s != "" {
+							return s
+						}
+					}
+				case *ssa.IndexAddr:
+					if y.X == addr {
+						if s := walk(y); s != "" {
+							return s
+						}
+					}
+				}
+			}
+			return ""
+		}
+		return walk(x)
+	case *ssa.UnOp:
+		return rec(x.X)
+	case *ssa.FieldAddr:
+		return rec(x.X)
+	case *ssa.Field:
+		return rec(x.X)
+	case *ssa.IndexAddr:
+		return rec(x.X)
+	case *ssa.Index:
+		return rec(x.X)
+	case *ssa.Lookup:
+		return rec(x.X)
+	case *ssa.Extract:
+		return rec(x.Tuple)
+	case *ssa.Slice:
+		return rec(x.X)
+	case *ssa.Convert:
+		return rec(x.X)
+	case *ssa.ChangeType:
+		return rec(x.X)
+	case *ssa.MakeInterface:
+		return rec(x.X)
+	case *ssa.Phi:
+		for _, e := range x.Edges {
+			if s := rec(e); s != "" {
+				return s
+			}
+		}
+	}
+	return ""
 }
